@@ -189,7 +189,7 @@ class Sequences(SubCheck):
         self.svg = svg
         self.space = pc.spec_space(4 if tier == "thorough" else 3, 0, mink=1)
         self.builder = pc.Builder(seed)
-        self.builds = ["parsed", "rebuilt", "mapped"]
+        self.builds = ["parsed", "rebuilt", "mapped", "kw", "dict"]
         self.bounds = dict(depth=4 if tier == "thorough" else 3, builds=self.builds, relative=3, smooth=3)
 
     def size(self):
@@ -219,9 +219,16 @@ class Sequences(SubCheck):
                 p = p0
             elif build == "rebuilt":
                 p = rebuild(svg, p0)
+            elif build == "kw":
+                p = svg.Path(d=d)           # the attribute spellings of the constructor
+            elif build == "dict":
+                p = svg.Path({"d": d, "stroke": "red"})
             else:
                 p = abs(svg.Path(d) * M)
             src = list(abs(p))
+            if build in ("kw", "dict"):
+                # the same path data through another constructor spelling: the source of truth is the positional parse
+                src = list(abs(p0))
             for r in RS:
                 for sm in RS:
                     tags = dict(build=build, relative=r, smooth=sm, d=d)
@@ -302,7 +309,7 @@ class Handles(Sequences):
     def __init__(self, svg, tier, seed):
         self.svg = svg
         self.strings = handle_strings()
-        self.builds = ["parsed", "rebuilt", "mapped"]
+        self.builds = ["parsed", "rebuilt", "mapped", "kw"]
         self.bounds = dict(strings=len(self.strings), builds=self.builds, relative=3, smooth=3)
 
     def size(self):
